@@ -80,10 +80,40 @@ PredictedRegion(t, p, pos, i) ==
             IN StoredKey(t, c.path[1].sp).pre
                \o (IF n = 1 THEN k.raw ELSE head \o <<46>> \o k.dpre \o k.raw) \o k.suf
 
+\* ---- inside inline tables: the same storage, in a closed world ----
+\* position (key steps only) of every prefix of `names`
+NamePrefixes(names) == [j \in 1..Len(names) |-> SubSeq(names, 1, j)]
+\* predicted text of the key region of pair j of the inline table v (text t): leading segments from the keys the
+\* dotted tables inside v keep, the last one as written
+PredictedInlineRegion(t, v, j) ==
+  LET names == v.kr[j].names
+      n == Len(names)
+      own == StoredKey(t, v.kr[j].last)
+  IN IF n = 1 THEN own.raw ELSE SegsText(t, v, NamePrefixes(names), 1, n - 1) \o <<46>> \o own.dpre \o own.raw
+\* all inline tables of a value, paired positionally between source and reprint: <<source table, reprinted table>>
+RECURSIVE InlinePairsV(_, _), InlinePairsSeq(_, _), InlinePairsEntries(_, _)
+InlinePairsV(a, b) ==
+  IF a.k # b.k THEN {<<a, b, FALSE>>}
+  ELSE CASE a.k = "t" -> {<<a, b, Len(a.kr) = Len(b.kr) /\ Len(a.v) = Len(b.v)>>} \cup InlinePairsEntries(a.v, b.v)
+         [] a.k = "a" -> InlinePairsSeq(a.v, b.v)
+         [] OTHER -> {}
+InlinePairsSeq(as, bs) == IF as = <<>> \/ bs = <<>> THEN (IF as = bs THEN {} ELSE {<<[k |-> "x"], [k |-> "y"], FALSE>>})
+                          ELSE InlinePairsV(Head(as), Head(bs)) \cup InlinePairsSeq(Tail(as), Tail(bs))
+InlinePairsEntries(as, bs) == IF as = <<>> \/ bs = <<>> THEN (IF as = bs THEN {} ELSE {<<[k |-> "x"], [k |-> "y"], FALSE>>})
+                              ELSE InlinePairsV(Head(as).val, Head(bs).val) \cup InlinePairsEntries(Tail(as), Tail(bs))
+\* every inline table of the reprint spells its key regions as predicted from the source
+InlineRegionsAsPredicted(n, sv, out, ov) ==
+  \A pr \in InlinePairsV(sv, ov) :
+    /\ pr[3]
+    /\ pr[1].k = "t" => \A j \in 1..Len(pr[1].kr) :
+         SubSeq(out, pr[2].kr[j].reg[1], pr[2].kr[j].reg[2] - 1) = PredictedInlineRegion(n, pr[1], j)
+
 RegionText(t, s) == LET r == KeyRegion(t, s) IN SubSeq(t, r[1], r[2] - 1)
 \* the reprint `out` (parsed as q) spells every key region as predicted from the source n (parsed as pn)
 RegionsAsPredicted(n, pn, out, q) ==
   /\ Len(pn.stmts) = Len(q.stmts)
   /\ LET pos == StmtPos(pn.stmts) IN
-     \A i \in 1..Len(pn.stmts) : RegionText(out, q.stmts[i]) = PredictedRegion(n, pn, pos, i)
+     \A i \in 1..Len(pn.stmts) :
+       /\ RegionText(out, q.stmts[i]) = PredictedRegion(n, pn, pos, i)
+       /\ pn.stmts[i].kind = "kv" => InlineRegionsAsPredicted(n, pn.stmts[i].val, out, q.stmts[i].val)
 =============================================================================
